@@ -175,6 +175,8 @@ def user_model(draw, existing=()):
     else:
         s = draw(st.sampled_from(_LET)) + draw(st.text(alphabet=_WORD1 + "-", min_size=0, max_size=6)) + draw(st.sampled_from(_WORD1))
     s = s.strip("-") or "UM"
+    if c == 9 and draw(st.booleans()):
+        return draw(st.sampled_from(N.MODELS))  # registering a name that is published already must be harmless
     if s in N.KEYWORDS or s in N.MODELS or s in existing:
         s = s + "_u"
     return s
